@@ -95,9 +95,33 @@ def main():
         S.append(open(os.path.join(V, "seeded", "RESULTS.md")).read().split("\n", 6)[-1] if False else "Full table: `seeded/RESULTS.md`.\n")
     sec133 = "\n".join(S)
 
+    # 13.4 theorem inventory and level texts, from the sources
+    from tools import vlib, mkmanifest
+    T = ["### 13.4 Theorem inventory and claimed level per property (generated from coq/Properties and tools/props)\n",
+         "The per-property paragraphs of §13.1 were written when each check was first wired; repairs (§13.2),",
+         "strengthening after missed seeds (§13.3) and two rounds of proof deepening followed. This inventory is",
+         "regenerated from the sources and is authoritative for what is proved now: every name below is a theorem",
+         "in `coq/Properties/<ID>.v` whose `Print Assumptions` output is checked to be *Closed under the global",
+         "context* on every run of the check. `_partial` in a name marks a statement weaker than the property's full",
+         "statement; what is missing is said in the level note.\n"]
+    tot = 0
+    for i in range(1, 21):
+        pid = "C%02d" % i
+        try:
+            thms, printed, examples = vlib.property_theorems(pid)
+        except OSError:
+            continue
+        m = mkmanifest.module_manifest(pid) or {}
+        tot += len(thms)
+        T.append("**%s** — %d theorems, %d examples. %s\n" % (pid, len(thms), len(examples), ", ".join("`%s`" % x for x in thms)))
+        if m.get("level_note"):
+            T.append("*Level note:* " + m["level_note"].strip() + "\n")
+    T.insert(7, "Total: %d theorems over the 20 property files.\n" % tot)
+    sec134 = "\n".join(T)
+
     p = os.path.join(V, "DESIGN.md")
     t = open(p).read()
-    new = "<!-- BEGIN 13.2 (generated by python3 -m tools.mkdesign) -->\n" + sec132 + "\n" + sec133 + "\n<!-- END 13.2 -->"
+    new = "<!-- BEGIN 13.2 (generated by python3 -m tools.mkdesign) -->\n" + sec132 + "\n" + sec133 + "\n" + sec134 + "\n<!-- END 13.2 -->"
     t = re.sub(r"<!-- BEGIN 13\.2.*?<!-- END 13\.2 -->", lambda m: new, t, flags=re.S)
     open(p, "w").write(t)
     print("DESIGN.md: %d fix commits, %d live findings" % (len(log), len(live)))
